@@ -1066,6 +1066,7 @@ class Engine:
         if mdl is None:
             return None
         dims = path.dims
+        scopes0 = solver.num_scopes()
         for cap in (2, 3, 5):
             solver.push()
             for d in dims.values():
@@ -1082,7 +1083,37 @@ class Engine:
             r = solver.check()
             if r == z3.sat:
                 mdl = solver.model()
-                solver.pop()
+                # prefer inputs of ordinary magnitude: with the solver's default choices (0, 1e-8, 1e12 ...) float rounding,
+                # not the code, decides the native comparison of the replay; one symbol at a time, kept only if the
+                # counter-example survives (best effort, bounded in time; the verdict does not depend on it)
+                try:
+                    consts = {}
+                    self._real_terms(getattr(path, 'inputs', {}), consts, range(cap))
+                    t_end = time.time() + 6
+                    solver.set('timeout', 400)
+                    for t in list(consts.values())[:60]:
+                        if time.time() > t_end:
+                            break
+                        for rng in ((0.0625, 16), (-16, -0.0625)):
+                            solver.push()
+                            solver.add(t >= rng[0], t <= rng[1])
+                            if solver.check() == z3.sat:
+                                mdl = solver.model()
+                                break
+                            solver.pop()
+                        else:
+                            continue
+                except Exception:
+                    pass
+                finally:
+                    solver.set('timeout', self.vc_timeout_ms)
+                while True:     # leave the solver as it was found
+                    try:
+                        solver.pop()
+                    except z3.Z3Exception:
+                        break
+                    if solver.num_scopes() == scopes0:
+                        break
                 break
             solver.pop()
         out = {'dims': {nme: mdl.eval(d, model_completion=True).as_long() for nme, d in dims.items()}}
@@ -1092,6 +1123,35 @@ class Engine:
         except Exception as e:      # replay is best effort; the verdict does not depend on it
             out['inputs_error'] = f'{type(e).__name__}: {e}'
         return out
+
+    def _real_terms(self, v, consts, idx, depth=0):
+        """the real-valued input symbols (array entries at the indices idx) of a value, by z3 id"""
+        if depth > 6 or len(consts) > 80:
+            return
+        if isinstance(v, SV):
+            if v.t.sort() == z3.RealSort() and not z3.is_rational_value(v.t):
+                consts.setdefault(v.t.get_id(), v.t)
+        elif isinstance(v, Opt):
+            self._real_terms(v.val, consts, idx, depth + 1)
+        elif isinstance(v, Vec):
+            for i in idx:
+                try:
+                    if isinstance(v.n, int):
+                        if i < v.n:
+                            self._real_terms(v.at(i), consts, idx, depth + 1)
+                    else:
+                        self._real_terms(v.at(z3.IntVal(i)), consts, idx, depth + 1)
+                except Exception:
+                    pass
+        elif isinstance(v, Obj):
+            for x in v.fields.values():
+                self._real_terms(x, consts, idx, depth + 1)
+        elif isinstance(v, (list, tuple)):
+            for x in v:
+                self._real_terms(x, consts, idx, depth + 1)
+        elif isinstance(v, dict):
+            for x in v.values():
+                self._real_terms(x, consts, idx, depth + 1)
 
     def concretize(self, v, mdl, memo):
         ev = lambda t: val_json(mdl.eval(t, model_completion=True))
